@@ -368,6 +368,112 @@ This decides `no new unaudited panic/recursion/loop site`, the enumerated necess
     // ---------------- loops (syntactic) ----------------
     loops(m, ctx);
     withdraw(m, ctx);
+    acyclic(m, ctx);
+}
+
+/// C08.acyclic: the resolvers that follow type references (classes baseline in audit/recursion.json) end because a chain
+/// of type references ends: Validator::link removes every type assignment that lies on a pure reference cycle before
+/// it links anything. The removal is evaluated on small definition maps, and its place (before the key loop) is checked.
+fn acyclic(m: &Model, ctx: &mut Ctx) {
+    use crate::eval::{Env, Evaluator, Val};
+    let Some(link) = m.fns.iter().find(|f| f.name == "link" && f.self_ty.as_deref() == Some("Validator")) else {
+        ctx.fail_closed("C08.acyclic", "anchor not found: Validator::link");
+        return;
+    };
+    ctx.oblige("C08.acyclic", "removal-before-linking", true);
+    // the call must come before the loop over the keys (a top-level statement of link, ahead of the `while`)
+    let mut call_at = None;
+    let mut loop_at = None;
+    for (i, st) in link.block.stmts.iter().enumerate() {
+        let t = tok(st);
+        if t.contains("self.remove_circular_type_references()") && call_at.is_none() {
+            call_at = Some(i);
+        }
+        if t.starts_with("while let Some(key)=keys.pop()") && loop_at.is_none() {
+            loop_at = Some(i);
+        }
+    }
+    match (call_at, loop_at) {
+        (Some(a), Some(b)) if a < b => {}
+        (None, _) => {
+            ctx.violate("C08.acyclic", "cycle-removal-missing", &link.file, link.line,
+                "Validator::link no longer removes type assignments that are only defined in terms of themselves before linking: `A ::= B  B ::= A  v A ::= 5` sends link_with_type / link_enum_or_distinguished / DeclarationElsewhere::root into unbounded recursion (stack exhaustion)");
+            return;
+        }
+        _ => {
+            ctx.violate("C08.acyclic", "cycle-removal-after-linking", &link.file, link.line, "the removal of circular type references must run before the linking loop");
+            return;
+        }
+    }
+    let Some(f) = m.fns.iter().find(|f| f.name == "remove_circular_type_references" && f.self_ty.as_deref() == Some("Validator")) else {
+        ctx.fail_closed("C08.acyclic", "anchor not found: Validator::remove_circular_type_references");
+        return;
+    };
+    ctx.func(&f.key);
+    let consts = crate::rules::util::const_resolver(m);
+    // definition maps: name -> Some(referenced name) for `X ::= Y`, None for a constructed / builtin type
+    let maps: Vec<(&str, Vec<(&str, Option<&str>)>, Vec<&str>)> = vec![
+        ("two-cycle with an alias leading into it", vec![("A", Some("B")), ("B", Some("A")), ("C", Some("A")), ("D", None)], vec!["A", "B"]),
+        ("self reference", vec![("E", Some("E")), ("F", Some("G")), ("G", None)], vec!["E"]),
+        ("three-cycle", vec![("P", Some("Q")), ("Q", Some("R")), ("R", Some("P")), ("S", Some("T")), ("T", Some("S"))], vec!["P", "Q", "R", "S", "T"]),
+        ("no cycle: chain ending in a builtin type", vec![("A", Some("B")), ("B", Some("C")), ("C", None)], vec![]),
+        ("reference to an undefined type", vec![("A", Some("Missing"))], vec![]),
+        ("value assignments are not type references", vec![("v", None), ("A", Some("A"))], vec!["A"]),
+    ];
+    for (what, defs, want) in maps {
+        ctx.oblige("C08.acyclic", what, true);
+        let defs2: Vec<(String, Option<String>)> = defs.iter().map(|(n, r)| (n.to_string(), r.map(|x| x.to_string()))).collect();
+        let hook = move |_: &Evaluator, name: &str, a: &[Val]| -> Option<Result<Val, String>> {
+            let is_map = matches!(a.first(), Some(Val::Opaque(s)) if s == "tlds");
+            match name {
+                ".keys" if is_map => Some(Ok(Val::List(defs2.iter().map(|(n, _)| Val::Str(n.clone())).collect()))),
+                ".get" if is_map => {
+                    let key = match a.get(1) { Some(Val::Str(k)) => k.clone(), o => return Some(Err(format!("tlds.get({:?})", o.map(|x| x.show())))) };
+                    Some(Ok(match defs2.iter().find(|(n, _)| *n == key) {
+                        None => Val::none(),
+                        Some((_, Some(r))) => {
+                            let mut e = BTreeMap::new();
+                            e.insert("identifier".to_string(), Val::Str(r.clone()));
+                            let mut t = BTreeMap::new();
+                            t.insert("ty".to_string(), Val::Ctor("ElsewhereDeclaredType".into(), vec![Val::Ctor("DeclarationElsewhere".into(), vec![], e)], BTreeMap::new()));
+                            Val::some(Val::Ctor("Type".into(), vec![Val::Ctor("ToplevelTypeDefinition".into(), vec![], t)], BTreeMap::new()))
+                        }
+                        Some((n, None)) if n.chars().next().map(|c| c.is_lowercase()).unwrap_or(false) => Val::some(Val::Ctor("Value".into(), vec![Val::Opaque("value".into())], BTreeMap::new())),
+                        Some((_, None)) => {
+                            let mut t = BTreeMap::new();
+                            t.insert("ty".to_string(), Val::Ctor("Integer".into(), vec![Val::Opaque("int".into())], BTreeMap::new()));
+                            Val::some(Val::Ctor("Type".into(), vec![Val::Ctor("ToplevelTypeDefinition".into(), vec![], t)], BTreeMap::new()))
+                        }
+                    }))
+                }
+                ".remove" if is_map => Some(Ok(Val::Unit)),
+                ".into" | ".cloned" | ".clone" if a.len() == 1 => Some(Ok(a[0].clone())),
+                _ => None,
+            }
+        };
+        let ev = Evaluator { consts: &consts, call_hook: &hook, inline: None };
+        let mut env = Env::new();
+        let mut sv = BTreeMap::new();
+        sv.insert("tlds".to_string(), Val::Opaque("tlds".into()));
+        env.insert("self".into(), Val::Ctor("Validator".into(), vec![], sv));
+        match ev.eval_fn_body(&f.block, &mut env) {
+            Ok(Val::List(l)) => {
+                let mut got: Vec<String> = l.iter().filter_map(|e| match e {
+                    Val::Ctor(_, _, f) => match f.get("pdu") { Some(Val::Ctor(s, p, _)) if s == "Some" => match p.first() { Some(Val::Str(n)) => Some(n.clone()), _ => None }, _ => None },
+                    _ => None,
+                }).collect();
+                got.sort();
+                let mut w: Vec<String> = want.iter().map(|x| x.to_string()).collect();
+                w.sort();
+                if got != w || got.len() != l.len() {
+                    ctx.violate("C08.acyclic", "cycle-detection", &f.file, f.line,
+                        &format!("{}: the definitions reported (and removed) as circular are {:?}, the type assignments on a pure reference cycle are {:?}: a cycle that is left in the map sends the reference-chasing resolvers into unbounded recursion, a removed acyclic definition is lost", what, got, w));
+                }
+            }
+            Ok(o) => ctx.fail_closed("C08.acyclic", &format!("[{}]: {}", what, o.show().chars().take(160).collect::<String>())),
+            Err(e) => ctx.fail_closed("C08.acyclic", &format!("[{}]: {}", what, e)),
+        }
+    }
 }
 
 /// C08.withdraw: the linking steps of Validator::link hand `&self.tlds` to resolvers that chase references through the
